@@ -59,6 +59,8 @@ pub fn step_strategy() -> impl Strategy<Value = Step> {
         3 => prop_oneof![(0.0f32..4.0), log_uniform(-4.0, 2.5)].prop_map(Step::Arb),
         // frames far shorter than a display frame (nanoseconds to microseconds): they still count
         1 => prop_oneof![Just(1.0e-9f32), Just(1.0e-7f32), Just(f32::EPSILON), log_uniform(-9.5, -4.0)].prop_map(Step::Arb),
+        // rarely an astronomic frame (two of them saturate the clock of the current state - and only that)
+        1 => prop_oneof![3 => Just(1.0e19f32), 1 => Just(1.0e15f32), 1 => Just(4.0e9f32)].prop_map(Step::Arb),
         4 => (-2i8..=2).prop_map(|off| Step::ToEnd { off }),
         1 => (-2i8..=2).prop_map(|cycles| Step::ToEndCycles { cycles }),
         1 => (-3i8..=3).prop_map(|ulps| Step::ToEndUlps { ulps }),
@@ -397,7 +399,8 @@ impl<'a> Exec<'a> {
                     debug_assert_eq!(ns, d.as_nanos());
                     self.t = MTime::from_ns(self.t.ns + ns);
                 } else {
-                    self.t = MTime { ns: 0, exact: false, secs: self.t.secs + dt as f64, unc: self.t.unc + 1e-9 };
+                    // the time in state saturates at Duration::MAX (about 1.8446744e19 s)
+                    self.t = MTime { ns: 0, exact: false, secs: (self.t.secs + dt as f64).min(Duration::MAX.as_secs_f64()), unc: self.t.unc + 1e-9 };
                 }
                 self.model.advance_ns(d.as_nanos());
                 let what = format!("op {n} advance({dt:?})");
